@@ -15,6 +15,10 @@ CONSTANTS
   WithInject = FALSE
   CheckSig = TRUE
   CoverAll = TRUE
+  Addrs = {"a1"}
+  MaxAcq = 0
+  EarlyBook = FALSE
+  TrustSource = FALSE
 INVARIANT TypeOK
 INVARIANT Unforgeable
 INVARIANT HonestSignOnlyBySend
@@ -22,3 +26,6 @@ INVARIANT AuthOnly
 INVARIANT NoForgedVerified
 INVARIANT OverlaySeparation
 INVARIANT HonestAttribution
+INVARIANT BookLegit
+INVARIANT BookNoKeyEmpty
+PROPERTY RejectInert
